@@ -91,6 +91,18 @@ def matches(known, viol):
     return True
 
 
+JOB_TIMEOUT = int(os.environ.get("VERIF_JOB_TIMEOUT", "5400"))
+
+
+def die_with_parent():
+    """workers never outlive the driver (PR_SET_PDEATHSIG = 1)"""
+    try:
+        import ctypes
+        ctypes.CDLL("libc.so.6", use_errno=True).prctl(1, signal.SIGKILL)
+    except Exception:
+        pass
+
+
 def run_batches(prop, jobs):
     """jobs: list of (family, seed, from, to). Returns list of per-plan records."""
     recs = []
@@ -103,14 +115,20 @@ def run_batches(prop, jobs):
         cmd = [ACMED, "--family", fam, "--seed", str(seed), "--from", str(lo), "--to", str(hi), "--props", prop,
                "--samples", str(samples)]
         p = subprocess.Popen(cmd, env=worker_env({"ACMED_VERIF_RUN": "batch"}), stdout=subprocess.PIPE,
-                             stderr=subprocess.PIPE, text=True)
+                             stderr=subprocess.PIPE, text=True, preexec_fn=die_with_parent)
         return (p, job)
 
     import threading
     lock = threading.Lock()
 
     def pump(p, job):
-        out, err = p.communicate()
+        try:
+            out, err = p.communicate(timeout=JOB_TIMEOUT)
+        except subprocess.TimeoutExpired:
+            p.kill()
+            out, err = p.communicate()
+            with lock:
+                harness.append("worker %s exceeded %d s of wall time and was killed" % (job, JOB_TIMEOUT))
         with lock:
             for line in out.splitlines():
                 try:
